@@ -6,7 +6,7 @@ From Coq Require Import ZArith List Bool Relations.Relation_Operators.
 Import ListNotations.
 From ClapModel Require Import Base.Bytes Base.Machine.
 From ClapModel Require Import Parse.Cmd Parse.Build Parse.Valid Parse.Matcher Parse.Errors Parse.Validator Parse.Parser.
-From ClapModel Require Import ParseProofs.Relations ParseProofs.RelationsTree ParseProofs.RelationsClauses ParseProofs.RelationsComplete ParseProofs.RelationsFamilies.
+From ClapModel Require Import ParseProofs.Relations ParseProofs.RelationsTree ParseProofs.RelationsClauses ParseProofs.RelationsComplete ParseProofs.RelationsFamilies ParseProofs.RelationsCoherent.
 From ClapModel Require Import ParseProofs.ValidateTotal.
 From ClapModel Require Import ParseProofs.Safe ParseProofs.Invariant ParseProofs.Totality ParseProofs.TotalityMain ParseProofs.IndexInv.
 From ClapModel Require Import ParseProofs.Globals.
@@ -433,8 +433,10 @@ Print Assumptions C03_static_nonvacuous.
     [remove_overrides] can remove at all (every command); outside the two families it removes
     neither a group's own entry nor the entry of another arg that belongs to a group, so it
     preserves the coherence of every group not containing the occurring arg (whose own entry
-    and groups are rebuilt by [start_custom_arg] right after).  Missing for the full statement:
-    coherence as an invariant of the token loop (the [start_custom_arg] step and the traversal). *)
+    and groups are rebuilt by [start_custom_arg] right after); and the whole step [start_custom_arg]
+    with an explicit source re-establishes the coherence of EVERY group ([C03_start_custom_arg_
+    coherent_partial]).  Missing for the full statement: the traversal (coherence threaded through
+    [react]'s own-entry removal, the default-source calls and the token loop). *)
 Theorem C03_remove_overrides_frame : forall c a m k,
   ~ In k (a_overrides a) ->
   (forall ov, find_arg c k = Some ov -> ~ In (a_id a) (a_overrides ov)) ->
@@ -482,3 +484,34 @@ Theorem C03_families_witnesses :
                  /\ check_explicit (mt st) i_c PIsPresent = true).
 Proof. exact families_witnesses. Qed.
 Print Assumptions C03_families_witnesses.
+
+(** the group-handling step: closed form of the explicit ids after [start_custom_arg] with an
+    explicit source (every command), and coherence of every group afterwards outside the families *)
+Theorem C03_start_custom_arg_explicit : forall c a s m m', src_explicit s = true ->
+  start_custom_arg c a s m = ROk m' ->
+  forall i, ex m' i =
+    if mem_id i (groups_for_arg c (a_id a)) then true
+    else if beq i (a_id a) then true
+    else ex (match s with SCmdLine => remove_overrides c a m | _ => m end) i.
+Proof. exact start_custom_arg_explicit. Qed.
+Print Assumptions C03_start_custom_arg_explicit.
+
+Theorem C03_start_custom_arg_coherent_partial : forall c a s m m',
+  rel_wf c = true -> group_safe c = true -> find_arg c (a_id a) = Some a ->
+  (forall g, In g (c_groups c) -> find_arg c (g_id g) = None) ->
+  src_explicit s = true ->
+  (forall g, In g (c_groups c) -> ~ In (a_id a) (g_args g) -> cohg m g) ->
+  start_custom_arg c a s m = ROk m' ->
+  forall g, In g (c_groups c) -> cohg m' g.
+Proof. exact start_custom_arg_coherent. Qed.
+Print Assumptions C03_start_custom_arg_coherent_partial.
+
+Theorem C03_start_custom_arg_coherent_nonvacuous :
+  let c := build_self gs_cmd in
+  let a := built_arg gs_cmd i_a in
+  rel_wf c = true /\ group_safe c = true /\ find_arg c (a_id a) = Some a
+  /\ forallb (fun g => negb (is_some (find_arg c (g_id g)))) (c_groups c) = true
+  /\ exists m', start_custom_arg c a SCmdLine (entry [(i_d, flag_entry SCmdLine)]) = ROk m'
+                /\ coherent_b c m' = true /\ ex m' i_g = true /\ ex m' i_a = true /\ ex m' i_d = true.
+Proof. exact start_custom_arg_coherent_nonvacuous. Qed.
+Print Assumptions C03_start_custom_arg_coherent_nonvacuous.
